@@ -62,6 +62,15 @@ Theorem C05_mentioned_key_is_recursive_merge : forall rec p fs xs chs fo xo cho 
 Proof. exact comp_merge_hit. Qed.
 Print Assumptions C05_mentioned_key_is_recursive_merge.
 
+(* the same at any depth: where the older tree holds a container at the mapping path q and the newer tree reaches a value v there (through
+   non-deleting mappings with unique keys), the merged tree holds at q the merge of exactly those two - [idiom]: unless that merge is the
+   emptied outcome of a !del value, for which the key is removed *)
+Theorem C05_merged_at_any_depth : forall q fuel p s o r w v c0,
+  q <> [] -> on_merge [] fuel p s o = Ok (r, w) -> nreach o q v -> dget s q = Some c0 -> is_comp c0 = true ->
+  exists fu p' n w0, on_merge [] fu p' c0 v = Ok (n, w0) /\ (idiom n v = false -> exists c', dget r q = Some c' /\ Sim n c').
+Proof. exact merged_deep. Qed.
+Print Assumptions C05_merged_at_any_depth.
+
 (* "the merged value at any path is unaffected by what sibling paths contain or how keys elsewhere are named": two merges of mappings
    that agree on what they hold at k - whatever their other keys (names and contents), their own flags, their position in the tree - leave
    Sim nodes at k *)
